@@ -46,11 +46,14 @@ func (k *UPNDNSInfo) Unmarshal(b []byte) (err error) {
 	if err != nil {
 		return
 	}
-	if int(k.UPNOffset)+int(k.UPNLength) > len(b) || int(k.DNSDomainNameOffset)+int(k.DNSDomainNameLength) > len(b) {
+	// The sums are made in int: in uint16 they wrap around for a buffer longer than 64KiB
+	uo, ue := int(k.UPNOffset), int(k.UPNOffset)+int(k.UPNLength)
+	do, de := int(k.DNSDomainNameOffset), int(k.DNSDomainNameOffset)+int(k.DNSDomainNameLength)
+	if ue > len(b) || de > len(b) {
 		return errors.New("UPN_DNS_INFO offset and length fields point outside the buffer")
 	}
-	ub := mstypes.NewReader(bytes.NewReader(b[k.UPNOffset : k.UPNOffset+k.UPNLength]))
-	db := mstypes.NewReader(bytes.NewReader(b[k.DNSDomainNameOffset : k.DNSDomainNameOffset+k.DNSDomainNameLength]))
+	ub := mstypes.NewReader(bytes.NewReader(b[uo:ue]))
+	db := mstypes.NewReader(bytes.NewReader(b[do:de]))
 
 	u := make([]rune, k.UPNLength/2, k.UPNLength/2)
 	for i := 0; i < len(u); i++ {
